@@ -379,6 +379,19 @@ func (w *hWorld) hBody(f hFuncSpec, recv []hRecv) (outs []interface{}, err error
 	for i, r := range recv {
 		ids[i] = r.ID
 	}
+	if f.Once {
+		// a run-once function may be impure: its result also depends on how many times its
+		// body has run (always 1 under a correct library)
+		n := 1
+		vnLocked(func() {
+			for _, e := range w.Log {
+				if e.Fn == f.ID {
+					n++
+				}
+			}
+		})
+		ids = append(ids, n)
+	}
 	fails := f.Fails
 	if w.FailFn != nil {
 		fails = w.FailFn(f.ID)
